@@ -374,6 +374,7 @@ class Harness:
         os.kill = self._guard("kill")
         os.killpg = self._guard("killpg")
         self.worker = None          # the alias thread is started at its first use
+        self._w_seen = None
         self.w_jobs, self.w_tasks = {}, []
         signal.alarm(120)
 
@@ -418,6 +419,24 @@ class Harness:
         if self.w_jobs is self.XSH.all_jobs or self.w_tasks is xj._tasks_main or self.w_jobs or self.w_tasks:
             self._fail("thread-table", "a fresh alias thread does not start with an empty table of its own")
 
+    def _in_thread(self, fn):
+        """Run fn in the alias thread and, in the same hand-over, read which table objects that thread
+        sees afterwards."""
+        xj = self.xj
+
+        def run():
+            try:
+                r = (True, fn())
+            except BaseException as e:  # noqa: BLE001
+                r = (False, e)
+            return r, xj.get_jobs(), xj.get_tasks()
+
+        r, jobs, tasks = self._need_worker().call(run)
+        self._w_seen = (jobs, tasks)
+        if not r[0]:
+            raise r[1]
+        return r[1]
+
     def _invoke(self, actor, fn):
         """Run fn on the actor's thread -> ('ret', value) | ('exit', code, stderr-text)."""
         old = sys.stdout, sys.stderr
@@ -426,7 +445,7 @@ class Harness:
         _state["proxy"].target = out
         try:
             try:
-                v = fn() if actor == "m" else self._need_worker().call(fn)
+                v = fn() if actor == "m" else self._in_thread(fn)
                 res = ("ret", v)
             except SystemExit as e:
                 res = ("exit", e.code, err.getvalue()[-300:])
@@ -467,6 +486,7 @@ class Harness:
                 self.hist["step-with-unpurged-finished-job"] += 1
             self.hist["live-jobs-at-step:%d" % min(nlive, 6)] += 1
         self.hist["op:" + name] += 1
+        self._w_seen = None
         if op.get("actor") == "w":
             self.hist["step-in-alias-thread"] += 1
         try:
@@ -492,8 +512,8 @@ class Harness:
             self._fail("signal-sent", "a signal call reached the OS for a stub job: %r" % (self.sig_log,))
         if xj.get_jobs() is not self.XSH.all_jobs or xj.get_tasks() is not xj._tasks_main:
             self._fail("thread-table", "the main thread no longer uses XSH.all_jobs / _tasks_main")
-        if op.get("actor") == "w":
-            cur = self.worker.call(lambda: (xj.get_jobs(), xj.get_tasks()))
+        cur = self._w_seen
+        if cur is not None:
             if cur[0] is not self.w_jobs or cur[1] is not self.w_tasks:
                 self._fail("thread-table", "the alias thread's own table was not put back after the command")
         for t in ("m", "w"):
@@ -751,6 +771,49 @@ def check_history(case):
         h.close()
 
 
+def minimize_history(case, bucket, budget=4000):
+    """Greedy reduction of a failing history after Hypothesis' own shrinker (which works under a time
+    limit): drop operations, then simplify their fields, while the same bucket keeps failing."""
+    ops = [dict(o) for o in _flat_ops(case)]
+    tol = case.get("tolerate", list(DEFAULT_TOLERATE))
+    runs = [0]
+
+    def fails(cand):
+        runs[0] += 1
+        f, _ = check_history({"ops": cand, "tolerate": tol})
+        return f is not None and f.bucket == bucket and len(_flat_ops(f.case)) == len(cand)
+
+    changed = True
+    while changed and runs[0] < budget:
+        changed = False
+        i = len(ops) - 2            # the last operation is the failing one
+        while i >= 0 and runs[0] < budget:
+            cand = ops[:i] + ops[i + 1:]
+            if fails(cand):
+                ops = cand
+                changed = True
+            i -= 1
+        simple = {"actor": "m", "bg": True, "status": None, "captured": False, "posix": False, "rc": 0}
+        for i, o in enumerate(ops):
+            for k, v in simple.items():
+                if k in o and o[k] != v and runs[0] < budget:
+                    cand = [dict(x) for x in ops]
+                    cand[i][k] = v
+                    if fails(cand):
+                        ops = cand
+                        changed = True
+            if "args" in o and runs[0] < budget:
+                for j in range(len(o["args"])):
+                    cand = [dict(x) for x in ops]
+                    cand[i]["args"] = o["args"][:j] + o["args"][j + 1:]
+                    if fails(cand):
+                        ops = cand
+                        changed = True
+                        break
+    f, _ = check_history({"ops": ops, "tolerate": tol})
+    return f
+
+
 def _record(st, h, family):
     nt = h.nontrivial_steps > 0
     labels = [family, "len:%02d-%02d" % (h.steps // 10 * 10, h.steps // 10 * 10 + 9)]
@@ -809,7 +872,7 @@ def worker_exhaustive(arg):
             _record(st, h, "enumerated")
             if f is not None:
                 if not any(g.bucket == f.bucket for g in st.failures):
-                    st.fail(f)          # shortest history of this bucket in this shard (lengths ascend)
+                    st.fail(minimize_history(f.case, f.bucket) or f)
                 if len(st.failures) >= 6:
                     return st
     return st
@@ -826,6 +889,7 @@ def make_machine():
     from hypothesis.stateful import RuleBasedStateMachine, initialize, precondition, rule
 
     actors = st.sampled_from(["m", "m", "w"])
+    add_actors = st.sampled_from(["m", "m", "m", "w"])
     small = st.integers(1, 8).map(str)
     number = st.one_of(small, small, st.sampled_from(["0", "-1", "9", "99"]))
     sel_args = st.one_of(
@@ -844,7 +908,7 @@ def make_machine():
             lambda t: t[0] + [t[1]] + t[2]),
     )
     add_op = st.fixed_dictionaries({
-        "op": st.just("add"), "actor": actors, "bg": st.booleans(),
+        "op": st.just("add"), "actor": add_actors, "bg": st.booleans(),
         "status": st.sampled_from(STATUSES), "captured": st.sampled_from([False, False, "object", "hiddenobject"]),
     })
 
@@ -862,7 +926,7 @@ def make_machine():
             if h.failed:
                 _ctx["frozen"] = True       # what follows is Hypothesis shrinking, not exploration
 
-        @initialize(ops=st.lists(add_op, max_size=4))
+        @initialize(ops=st.lists(add_op, min_size=1, max_size=5))
         def start(self, ops):
             for op in ops:
                 self.h.apply(op)
@@ -871,9 +935,10 @@ def make_machine():
         def add(self, op):
             self.h.apply(op)
 
-        @rule(op=add_op)
-        def add_more(self, op):
-            self.h.apply(op)
+        @rule(ops=st.lists(add_op, min_size=1, max_size=3))
+        def add_burst(self, ops):
+            for op in ops:
+                self.h.apply(op)
 
         # -- process exits ----------------------------------------------------------------
         @precondition(lambda self: any(t.live() for t in self.h.tables.values()))
@@ -967,7 +1032,7 @@ def worker_machine(arg):
         g, _ = check_history(f.case)
         if g is None:
             raise common.HarnessError("shrunk history does not fail on replay: %r" % (f.case,))
-        st.fail(g)
+        st.fail(minimize_history(g.case, g.bucket) or g)
     return st
 
 
